@@ -6,6 +6,9 @@ V = os.path.dirname(os.path.dirname(os.path.abspath(__file__)))
 props = [json.loads(l) for l in open(os.path.join(V, "properties.jsonl"))]
 texts = json.load(open(os.path.join(V, "tools", "manifest_texts.json")))
 TECH = "Lean 4 proof over a hand-written executable model + differential correspondence with the implementation (+ regenerated tables / translated definitions where noted)"
+SUFFIX = (" Since the hardening passes (DESIGN §10.5) the differential tie and the oracle also run multi-step histories on long-lived objects, "
+          "sibling cases differing in one component, calls repeated after the caller edited earlier results, size ladders across round numbers, "
+          "magnitudes across every library tolerance and every route the property equates; the exact case kinds and their counts are in the evidence file of each run.")
 checks, na = [], []
 for p in props:
     pid = p["id"]
@@ -27,7 +30,7 @@ for p in props:
         "property_id": pid, "quick_cmd": f"./check {pid} --tier quick", "thorough_cmd": f"./check {pid} --tier thorough",
         "evidence_file": f"evidence/{pid}.json", "replay_cmd_template": f"./check {pid} --replay {{path}}",
         "engine": "lean-proof+correspondence",
-        "level_claimed": {"category": "proof", "text": t["text"], "design_ref": f"DESIGN.md §4 {pid}, §10"},
+        "level_claimed": {"category": "proof", "text": t["text"] + SUFFIX, "design_ref": f"DESIGN.md §4 {pid}, §10"},
         "level_note": t["note"], "technique": t.get("technique", TECH)})
 claimed = [c["property_id"] for c in checks]
 m = {"version": 1, "setup_cmd": "./setup.sh",
